@@ -3,6 +3,7 @@
 use serde_json::{json, Value as J};
 use std::io::{BufRead, Write};
 
+pub mod cfgload;
 pub mod codec;
 pub mod frag;
 pub mod milud;
@@ -72,6 +73,7 @@ pub fn main() {
         "frag-grid" => frag::grid(rest),
         "frag-trace" => frag::trace(rest),
         "codec" => codec::main(rest),
+        "config" => cfgload::main(rest),
         "route" => route::main(rest),
         "lb" => route::lb_main(rest),
         "rules" => route::rules_main(rest),
